@@ -19,6 +19,9 @@ PatTxt(p, i, j, c) ==
     \* blank bodies of every length next to each other: one empty paragraph (the only body the code calls "empty"), two and three
     \* empty paragraphs (not "empty" for the code, yet without any text), and a lone text cell
     [] p = 5 -> CASE (i + 2 * j) % 4 = 3 -> <<0>> [] (i + 2 * j) % 4 = 0 -> <<0, 0>> [] (i + 2 * j) % 4 = 1 -> <<0>> [] OTHER -> IF j = c THEN <<0, 0, 0>> ELSE <<Tok(i, j, c)>>
+    \* cells as a DOCUMENT may hold them: tokens 200.. stand for a paragraph whose only content is a FIELD (a:fld: a slide number, a date) -
+    \* text like any other ("the merge origin holds the text of every merged cell"), beside ordinary text cells and empty ones
+    [] p = 6 -> IF (i + j) % 2 = 1 THEN <<200 + Tok(i, j, c)>> ELSE IF i = 2 THEN <<Tok(i, j, c)>> ELSE <<0>>
 Create(r, c, p, v) == [op |-> "create", r |-> r, c |-> c, w |-> W, h |-> H, pat |-> p, var |-> v,
                        txt |-> [i \in 1..r |-> [j \in 1..c |-> PatTxt(p, i, j, c)]]]
 
